@@ -40,7 +40,7 @@ THEOREMS = ['C03_unify_gen_restores', 'C03_unify_gen_close_restores', 'C03_unify
             'C03_machine_refines_nquery', 'C03_machine_refines_nquery_fuel', 'C03_world_query_restores', 'C03_pyrows_realizes', 'C03_raising_predicate_realized',
             'C03_machine_exception_passthrough', 'C03_machine_refines_nqueryE',
             'C03_findall_copy_raise_restores', 'C03_findall_copy_raise_bounded_restores', 'C03_findall_copy_raise_step',
-            'C03_delayed_close_commutes', 'C03_close_order_irrelevant']
+            'C03_delayed_close_commutes', 'C03_close_order_irrelevant', 'C03_close_must_be_forwarded', 'C03_forwarded_close_releases']
 RULE = ("kind 'gen': non-trivial if the generator bound >= 2 cells or ran under >= 1 stacked unification, and the "
         "operation sequence abandons it at a yield (close/del after a yielding next) or resumes it. "
         "kind 'sched': non-trivial if some generator is started later than directly after its creation and >= 2 cells get bound. "
@@ -153,8 +153,8 @@ def _s_body(g):
         return call('findall', [g[1], _goal_term(g[2]), g[3]])
     if k == 'calln':
         return call('call', [g[1]] + g[2])
-    if k == 'pyp':
-        return call('pyp', [g[1]])
+    if k in ('pyp', 'pyt'):
+        return call(k, [g[1]])
     raise ValueError(g)
 
 def _s_program(clauses):
@@ -173,6 +173,8 @@ def _model_prog(case, io):
         return None
     if io['spec'] is None:
         return None
+    if _has_goal(case, 'pyt'):
+        return None             # the second user predicate is not in the machine program: oracle and reference interpreter only
     if io['refend'].startswith('raised') and not (case.get('pyend') and io['refend'] == 'raised:Boom'):
         return None
     db = {}
@@ -460,12 +462,83 @@ def _conj(rng, preds, vs, depth, maxn, allow_cut=True):
 MODES = ['exhaust', 'close', 'close', 'del', 'del', 'consumer_raise', 'throw', 'pyraise', 'pyraise',
          'bounded_ok', 'bounded_raise', 'bounded_raise', 'bounded_stop']
 
-def _gen_prog_case(rng):
+PYKINDS = ['genfunc', 'genexpr', 'chain', 'cursor', 'cursor', 'cursor_throw', 'cursor_del']
+PYREGS = ['plain', 'plain', 'lambda', 'partial', 'method', 'object', 'wrapped']
+
+def _map_goals(g, f, safe=True):
+    """the body AST with f applied to every user-predicate goal ['pyp', t]; safe: a conjunction may stand at this place of the
+    program text (not as the argument of \\+, once/1, findall/3, which are printed without parentheses)"""
+    if g is None:
+        return None
+    k = g[0]
+    if k == 'pyp':
+        return f(g, safe)
+    if k == 'and':
+        return ['and', [_map_goals(x, f, safe) for x in g[1]]]
+    if k in ('or',):
+        return [k, _map_goals(g[1], f, True), _map_goals(g[2], f, True)]
+    if k == 'ite':
+        return [k, _map_goals(g[1], f, True), _map_goals(g[2], f, True), _map_goals(g[3], f, True)]
+    if k in ('not', 'once'):
+        return [k, _map_goals(g[1], f, False)]
+    if k == 'findall':
+        return [k, g[1], _map_goals(g[2], f, False), g[3]]
+    return g
+
+def _has_goal(case, kind):
+    found = []
+    def look(g):
+        if g is None:
+            return
+        if g[0] == kind:
+            found.append(1)
+        elif g[0] == 'and':
+            for x in g[1]: look(x)
+        elif g[0] in ('or',):
+            look(g[1]); look(g[2])
+        elif g[0] == 'ite':
+            look(g[1]); look(g[2]); look(g[3])
+        elif g[0] in ('not', 'once'):
+            look(g[1])
+        elif g[0] == 'findall':
+            look(g[2])
+    for c in case['clauses']:
+        look(c[2])
+    return bool(found)
+
+PYTKINDS = ['list', 'tuple', 'iter', 'ypobj', 'gen']
+
+def _py_variation(case, pgen=0.5):
+    """round 4: kind of iterable the user predicate returns and kind of callable that is registered; drawn from a generator of
+    its own (seeded by the case), so that the cases of earlier rounds stay what they were"""
+    import json
+    r = random.Random(json.dumps(case, sort_keys=True))
+    kind = 'genfunc' if r.random() < pgen else r.choice(PYKINDS)
+    if kind == 'cursor' and case['mode'] == 'throw':
+        # an iterator object WITHOUT throw() that the application keeps: `yield from` has nothing to forward a thrown-in exception to and
+        # does not call close() either (PEP 380), so the object cannot know; such a predicate must offer throw() (see notes)
+        kind = 'cursor_throw'
+    case['pykind'] = kind
+    case['pyopt'] = {'reg': r.choice(PYREGS), 'closeraise': kind.startswith('cursor') and kind != 'cursor_del' and r.random() < 0.3,
+                     'pyt': r.choice(PYTKINDS)}
+    if r.random() < 0.35 and case['mode'] != 'pyraise' and not case.get('pyend'):
+        # some of the calls of the user predicate become calls of a second one that binds nothing and returns a list / a tuple / an
+        # iterator over a list / the engine's YPSuccess or YPFail object / a generator (pyt(X): true iff X is the atom a); preferably
+        # directly after a pyp goal (pyp(X), pyt(X): the first answer of pyp passes, the second does not)
+        def conv(g, safe):
+            return ['pyt', g[1]] if r.random() < 0.4 else (['and', [g, ['pyt', g[1]]]] if safe and r.random() < 0.5 else g)
+        case['clauses'] = [[c[0], c[1], _map_goals(c[2], conv)] for c in case['clauses']]
+    return case
+
+def _gen_prog_case(rng, focus=False):
+    return _py_variation(_gen_prog_case0(rng, focus), 0.15 if focus else 0.5)
+
+def _gen_prog_case0(rng, focus=False):
     mode = rng.choice(MODES)
     # pyend: the Python predicate pyp raises after its last row, in EVERY run (also the reference run): the exhaustive run then
     # ends by that exception after the answers produced so far - compared with the frame machine (machine_refines_nquery)
     pyend = rng.random() < 0.15
-    PPY[0] = 0.3 if (mode == 'pyraise' or pyend) else 0.04
+    PPY[0] = 0.3 if (mode == 'pyraise' or pyend or focus) else 0.04
     clauses = []
     preds = []
     dyn = []
@@ -525,6 +598,9 @@ def _src(case):
 class _Boom(Exception):
     pass
 
+class _CloseErr(_Boom):
+    """close() of a user predicate's iterator object complains (rows unread) after it has released what it holds"""
+
 class _Budget(Exception):
     pass
 
@@ -543,16 +619,139 @@ def _impl_prog(case):
         return ['uncompilable', type(e).__name__]
     yp.load_script_from_string(code, overwrite=False)
     state = {'calls': 0, 'j': None}
-    def pyp(x):
+    # round 4: the user predicate pyp (X = a ; X = c, Boom at its j-th call / after its last row) as every KIND of iterable a
+    # Python predicate may hand to the engine - a generator function, a generator expression, an itertools chain (no close(),
+    # no throw()), an iterator OBJECT with the engine's own protocol (__iter__/__next__/close, like YPSuccess; with or without
+    # throw(); kept in a registry of the application, so that only a forwarded close() ever reaches it; its close() may raise
+    # when rows are unread), an iterator object without close() that releases in __del__ - registered as a plain function, a
+    # lambda, a functools.partial, a bound method, a callable object or a functools.wraps decorator.
+    import itertools, functools
+    pykind = case.get('pykind') or 'genfunc'
+    pyopt = case.get('pyopt') or {}
+    vals = (yp.atom('a'), yp.atom('c'))
+    cstat = {'live': 0, 'made': 0, 'closecalls': 0, 'calls': 0}
+    registry = []           # the application's own references to its cursors
+    def rows():
         state['calls'] += 1
+        cstat['calls'] += 1
         if state['j'] is not None and state['calls'] == state['j']:
             raise _Boom('pyp')
-        for v in (yp.atom('a'), yp.atom('c')):
-            for _ in E.unify(x, v):
-                yield False
+        yield from vals
         if case.get('pyend'):
             raise _Boom('pyp-end')       # the predicate raises after its last row (RefineNative.pyrows rows true)
-    yp.register_function('pyp', pyp)
+    def one(x, v):
+        for _ in E.unify(x, v):
+            yield False
+    class Cursor(object):
+        def __init__(self, x):
+            self.x, self.src, self.binding, self.finished = x, None, None, False
+            cstat['made'] += 1
+        def __iter__(self):
+            return self
+        def _undo(self):
+            if self.binding is not None:
+                b, self.binding = self.binding, None
+                cstat['live'] -= 1
+                b.close()
+        def __next__(self):
+            try:
+                self._undo()
+                if self.finished:
+                    raise StopIteration
+                if self.src is None:
+                    self.src = rows()
+                for v in self.src:
+                    u = iter(E.unify(self.x, v))
+                    try:
+                        next(u)
+                    except StopIteration:
+                        continue
+                    self.binding = u
+                    cstat['live'] += 1
+                    return False
+                raise StopIteration
+            except BaseException:
+                if self.binding is None:
+                    self.finished = True
+                raise
+    class ClosingCursor(Cursor):
+        def close(self):
+            cstat['closecalls'] += 1
+            unread = not self.finished
+            self._undo()
+            self.finished = True
+            if unread and pyopt.get('closeraise'):
+                raise _CloseErr('cursor closed with unread rows')
+    class ThrowingCursor(ClosingCursor):
+        def throw(self, typ, val=None, tb=None):
+            self._undo()
+            self.finished = True
+            if isinstance(typ, BaseException):
+                raise typ
+            raise typ(val) if val is not None and not isinstance(val, BaseException) else (val or typ())
+    class DelCursor(Cursor):
+        def __del__(self):
+            self._undo()
+            self.finished = True
+    def pyp(x):
+        if pykind == 'genexpr':
+            return (False for v in rows() for _ in E.unify(x, v))
+        if pykind == 'chain':
+            return itertools.chain.from_iterable(one(x, v) for v in rows())
+        if pykind == 'cursor_del':
+            return DelCursor(x)
+        c = (ThrowingCursor if pykind == 'cursor_throw' else ClosingCursor)(x)
+        registry.append(c)
+        return c
+    if pykind == 'genfunc':
+        def pyp(x):
+            state['calls'] += 1
+            cstat['calls'] += 1
+            if state['j'] is not None and state['calls'] == state['j']:
+                raise _Boom('pyp')
+            for v in vals:
+                for _ in E.unify(x, v):
+                    yield False
+            if case.get('pyend'):
+                raise _Boom('pyp-end')
+    def pyt(x):
+        v = E.get_value(x)
+        ok = isinstance(v, E.Atom) and v.name() == 'a'
+        kind = pyopt.get('pyt') or 'list'
+        if kind == 'list':
+            return [False] if ok else []
+        if kind == 'tuple':
+            return (False,) if ok else ()
+        if kind == 'iter':
+            return iter([False] if ok else [])
+        if kind == 'ypobj':
+            return E.YPSuccess() if ok else E.YPFail()
+        return (False for _ in range(1 if ok else 0))
+    yp.register_function('pyt', pyt)
+    reg = pyopt.get('reg') or 'plain'
+    if reg == 'lambda':
+        yp.register_function('pyp', lambda x: pyp(x))
+    elif reg == 'partial':
+        yp.register_function('pyp', functools.partial(lambda tag, x: pyp(x), 'tag'))
+    elif reg == 'method':
+        class App(object):
+            def pred(self, x):
+                return pyp(x)
+        yp.register_function('pyp', App().pred)
+    elif reg == 'object':
+        class Pred(object):
+            def __call__(self, x):
+                return pyp(x)
+        yp.register_function('pyp', Pred())
+    elif reg == 'wrapped':
+        def deco(f):
+            @functools.wraps(f)
+            def w(*a):
+                return f(*a)
+            return w
+        yp.register_function('pyp', deco(pyp))
+    else:
+        yp.register_function('pyp', pyp)
     steps = [0]
     orig_query = yp.query
     def counted_query(name, args):
@@ -649,7 +848,10 @@ def _impl_prog(case):
                 end = 'raised:RecursionError'
             if end == 'abandoned':
                 if mode == 'close':
-                    q.close()
+                    try:
+                        q.close()
+                    except _CloseErr:
+                        end = 'close-raised'        # the iterator object of the user predicate complains after releasing its bindings
                 elif mode == 'throw':
                     try:
                         q.throw(_Boom('consumer'))
@@ -694,10 +896,19 @@ def _impl_prog(case):
             gc.collect()
         return answers, end, mb[0]
 
+    curbad = []
+    def cursors_left(what):
+        """iterator objects of the user predicate that the application still references and that were neither exhausted nor
+        closed when the query ended, and bindings that iterator objects still hold"""
+        n = sum(1 for c in registry if not c.finished)
+        registry[:] = []
+        if n or cstat['live']:
+            curbad.append([what, n, cstat['live']])
     before = state_of_world()
     snap0 = _snapshot(T, nv)
     # reference run on the same engine and variables: exhaustive, nothing raises
     ref, refend, refmb = drive('exhaust', 0, None)
+    cursors_left('the exhaustive reference run')
     refnb = list(nbs)
     refvals = list(bvals)
     refsteps = steps[0]
@@ -713,6 +924,9 @@ def _impl_prog(case):
     finally:
         sys.setrecursionlimit(lim)
     bad1 = check_world(before)
+    if not case.get('reclimit'):
+        cursors_left('the run under test')
+    registry[:] = []
     snap1 = _snapshot(T, nv)
     # the same again: must behave identically
     if case.get('reclimit'):
@@ -720,9 +934,12 @@ def _impl_prog(case):
     else:
         a2, e2, _ = drive(case['mode'], k, case['j'] if case['mode'] == 'pyraise' else None)
     bad2 = check_world(before)
+    if not case.get('reclimit'):
+        cursors_left('its repetition')
     # and a final exhaustive run: still the reference answers
     a3, e3, _ = drive('exhaust', 0, None)
     bad3 = check_world(before)
+    cursors_left('the final exhaustive run')
     for h in reversed(held):
         h.close()
     leaked = sum(1 for v in W if v._is_bound)
@@ -739,7 +956,7 @@ def _impl_prog(case):
     return {'ref': ref, 'refend': refend, 'refnb': refnb, 'refvals': refvals, 'steps': refsteps, 'bad0': bad0, 'k': k, 'spec': spec, 'spec1': spec1, 'heldbad': heldbad[0],
             'run1': [a1, e1], 'bad1': bad1, 'snap_restored': snap1 == snap0,
             'run2': [a2, e2], 'bad2': bad2, 'run3': [a3, e3], 'bad3': bad3,
-            'leaked': leaked, 'maxbound': max(refmb, mb1), 'nworld': len(W)}
+            'leaked': leaked, 'maxbound': max(refmb, mb1), 'nworld': len(W), 'curbad': curbad, 'curmade': cstat['made'], 'closecalls': cstat['closecalls'], 'pycalls': cstat['calls']}
 
 def _canon(ts, nv):
     m = {}
@@ -765,6 +982,8 @@ def gen(rng, tier):
     cases += [_gen_prog_case(rng) for _ in range(nprog)]
     # queries ended by RecursionError at EVERY depth (c03_sweep.py); drawn last, so the cases above are those of earlier rounds
     cases += [{'kind': 'sweep', 'spec': c03_sweep.gen_spec(rng, tier)} for _ in range(90 if tier == 'quick' else 1500)]
+    # round 4: programs that call the user predicate often, with the predicate of every iterable kind (drawn last)
+    cases += [_gen_prog_case(rng, focus=True) for _ in range(240 if tier == 'quick' else 3000)]
     return cases
 
 def builtin_corpus():
@@ -828,6 +1047,17 @@ def builtin_corpus():
     return L + P + S
 
 def impl(case):
+    # an iterator object whose close() raises, reached by the FINALISER of a dropped generator: CPython prints "Exception ignored in"
+    import sys
+    old_hook = sys.unraisablehook
+    if (case.get('pyopt') or {}).get('closeraise'):
+        sys.unraisablehook = lambda a: None
+    try:
+        return _impl(case)
+    finally:
+        sys.unraisablehook = old_hook
+
+def _impl(case):
     try:
         if case['kind'] == 'sweep':
             return c03_sweep.impl(case)
@@ -967,6 +1197,11 @@ def oracle(case, io):
     for key, what in (('bad0', 'the exhaustive reference run'), ('bad1', 'the run under test'), ('bad2', 'its repetition'), ('bad3', 'the final exhaustive run')):
         if io[key]:
             return '%d Variables are not in their pre-run binding state after %s (mode %s, k=%d)' % (io[key], what, case['mode'], io['k'])
+    if io.get('curbad'):
+        what, n, live = io['curbad'][0]
+        return ('after %s (mode %s, k=%d, user predicate of kind %s): %d iterator objects of the user predicate that the application still references were '
+                'neither exhausted nor closed (close() was not forwarded to them), %d bindings held by such objects are still in place'
+                % (what, case['mode'], io['k'], case.get('pykind'), n, live))
     if io['heldbad']:
         return '%d Variables are still bound after evaluate_bounded was left (mode %s) while the caller holds the query' % (io['heldbad'], case['mode'])
     if not io['snap_restored']:
@@ -1050,7 +1285,8 @@ def describe(case):
     return {'program': _src(case).split('\n'), 'dynamic_facts': case['dyn'],
             'active_bindings': ['%s = %s' % (terms.show_term(a), terms.show_term(b)) for a, b in case['stack']],
             'query': '%s(%s)' % (case['query'][0], ', '.join(terms.show_term(a) for a in case['query'][1])),
-            'mode': case['mode'], 'k': case['k'], 'pyp_raises_at_call': case['j'] if case['mode'] == 'pyraise' else None}
+            'mode': case['mode'], 'k': case['k'], 'pyp_raises_at_call': case['j'] if case['mode'] == 'pyraise' else None,
+            'pyp_is': case.get('pykind') or 'genfunc', 'pyp_options': case.get('pyopt') or {}}
 
 def shrink(case):
     if case['kind'] == 'sweep':
@@ -1121,6 +1357,13 @@ def distribution(cases, obs):
             inc(d.setdefault('sched_style', {}), c.get('style'))
             continue
         d[c['kind']] += 1
+        if c['kind'] == 'prog' and isinstance(o, dict) and o.get('curmade') is not None:
+            inc(d.setdefault('prog_user_predicate_kind (programs that called it)', {}), (c.get('pykind') or 'genfunc') if (o['curmade'] or o.get('pycalls')) else 'not called')
+            if _has_goal(c, 'pyt'):
+                inc(d.setdefault('prog_second_user_predicate_returns', {}), (c.get('pyopt') or {}).get('pyt'))
+            if o['curmade']:
+                inc(d.setdefault('prog_iterator_objects_made', {}), min(o['curmade'], 20))
+                inc(d.setdefault('prog_close_calls_that_reached_an_iterator_object', {}), min(o['closecalls'], 20))
         if o == ['cyc-or-deep']:
             d['cyc-or-deep'] += 1
             continue
